@@ -87,6 +87,200 @@ def guard_has(guards, kind, expr):
     return (kind, expr) in affine.canon_guards(guards, UNSIGNED)
 
 
+# ---- the four element operations on case summaries (lib/sem) with affine normalisation of addresses and lengths ------------------
+FIDX = {"data": 0, "len": 1, "capacity": 2}
+
+
+def aff(v):
+    """Affine expression of a summary term over data/len/capacity/index symbols, or None."""
+    v = sem.strip(v)
+    if v[0] == "const" and isinstance(v[1], int):
+        return Aff.const(v[1])
+    if v[0] == "sym":
+        return Aff.sym(v[1])
+    if v[0] == "fld" and v[3] in FIDX and sem.strip(v[1]) == ("sym", "self"):
+        return Aff.sym(v[3] + "0")
+    if v[0] == "opq" and v[2][0] == "bin" and v[2][1] in ("Add", "AddUnchecked", "Sub", "SubUnchecked", "Offset"):
+        a, b = aff(v[2][2]), aff(v[2][3])
+        if a is None or b is None:
+            return None
+        return a - b if v[2][1].startswith("Sub") else a + b
+    if v[0] == "pay" and v[2] == "Some" and sem.strip(v[1])[0] == "opq" and sem.strip(v[1])[2][0] == "call" and sem.strip(v[1])[2][1].endswith("checked_sub"):
+        a, b = aff(sem.strip(v[1])[2][2][0]), aff(sem.strip(v[1])[2][2][1])
+        return None if a is None or b is None else a - b
+    if v[0] == "opq" and v[2][0] == "call" and v[2][1].split("::")[-1] in ("add", "offset", "sub", "wrapping_add") and len(v[2][2]) == 2:
+        a, b = aff(v[2][2][0]), aff(v[2][2][1])
+        if a is None or b is None:
+            return None
+        return a - b if v[2][1].endswith("::sub") else a + b
+    return None
+
+
+def sem_op(fns, fn, argnames):
+    """Outcomes of one CVec operation: [(kind, guards (canonical), events, final len (Aff), returned term, outcome)]."""
+    reserve_path = V + "CVec::<T>::reserve"
+    ev = sem.Evaluator(fns, {}, inline=lambda p: p in fns and p != reserve_path)
+    me = ("sym", "self")
+    counter = [0]
+
+    def on_opaque(ev_, st, path, args):
+        if path == reserve_path:
+            counter[0] += 1
+            for nm in ("data", "capacity"):
+                ev_._write(st, ("ext", me), (("f", FIDX[nm], nm),), ("sym", "%s%d" % (nm, counter[0])))
+    ev.on_opaque = on_opaque
+    outs = ev.run(fn, [me] + [("sym", n) for n in argnames])
+    res = []
+    for o in outs:
+        guards = []
+        for c in o.conds:
+            t = sem.strip(c[1])
+            if c[0] == "eq" and t[0] == "opq" and t[2][0] == "bin" and t[2][1] in ("Le", "Lt", "Ge", "Gt", "Eq", "Ne"):
+                a, b = aff(t[2][2]), aff(t[2][3])
+                if a is not None and b is not None:
+                    guards.append((t[2][1], a, b, c[2] == 1))
+            elif c[0] in ("eq", "ne") and aff(t) is not None:
+                val = c[2] if c[0] == "eq" else c[2][0]
+                guards.append(("Eq", aff(t), Aff.const(val), c[0] == "eq"))
+            elif c[0] == "discr" and t[0] == "opq" and t[2][0] == "call" and t[2][1].endswith("checked_sub"):
+                # `a.checked_sub(b)` is Some exactly when a >= b
+                a, b = aff(t[2][2][0]), aff(t[2][2][1])
+                if a is not None and b is not None:
+                    guards.append(("Ge", a, b, c[2] == "Some"))
+        events = []
+        for e in o.effects:
+            if e[0] != "call":
+                if e[0] == "icall":
+                    events.append(("icall", e[1], e[2]))
+                continue
+            nm = e[1].split("::")[-1]
+            if e[1] == reserve_path:
+                events.append(("reserve", aff(e[2][1])))
+            elif e[1] in ("std::ptr::copy", "std::ptr::copy_nonoverlapping") or e[1].endswith(("::copy_to", "::copy_from")):
+                events.append(("copy", aff(e[2][0]), aff(e[2][1]), aff(e[2][2]), nm))
+            elif nm == "write" and len(e[2]) == 2:
+                events.append(("write", aff(e[2][0]), sem.strip(e[2][1])))
+            elif nm == "read" and len(e[2]) == 1:
+                events.append(("read", aff(e[2][0]), e[3]))
+            elif nm in ("add", "offset", "sub", "checked_sub", "wrapping_add") or "::panicking::" in e[1] or e[1].endswith(("panic_fmt", "begin_panic", "panic_display", "panic_str")) or "fmt::Arguments" in e[1]:
+                continue
+            else:
+                events.append(("call", e[1], e[2]))
+        lenv = o.state.over.get((("ext", me), (("f", 1, "len"),)))
+        flen = aff(lenv) if lenv is not None else Aff.sym("len0")
+        res.append((o.kind, affine.canon_guards(guards, UNSIGNED), events, flen, o.ret if o.kind == "ret" else None, o))
+    return res
+
+
+def payload_of_checked_sub(v):
+    return v
+
+
+def sem_element_ops(ck, fns):
+    """push / pop / insert / remove decided on case summaries; returns the set of operations decided (others fall back to the path rules)."""
+    done = set()
+    d0, l0, i = Aff.sym("data0"), Aff.sym("len0"), Aff.sym("index")
+    d1 = Aff.sym("data1")
+    one, zero = Aff.const(1), Aff.const(0)
+
+    def copies(events):
+        return [e for e in events if e[0] == "copy"]
+
+    def others(events, kinds):
+        return [e for e in events if e[0] not in kinds]
+    # ---- push: reserve(1); write value at data'+len; len+1 (a shift of zero elements may or may not be spelled)
+    fn = fns.get(V + "CVec::<T>::push")
+    if fn:
+        rs = [r for r in sem_op(fns, fn, ["value"])]
+        if rs and all(r[0] == "ret" for r in rs):
+            ok = True
+            for kind, guards, ev_, flen, ret, o in rs:
+                w = [e for e in ev_ if e[0] == "write"]
+                rv = [e for e in ev_ if e[0] == "reserve"]
+                cp = copies(ev_)
+                ok = ok and len(rv) == 1 and rv[0][1] == one and ev_.index(rv[0]) == 0 and len(w) == 1 and w[0][1] == d1 + l0 and w[0][2] == ("sym", "value") \
+                    and flen == l0 + one and not others(ev_, ("reserve", "write", "copy")) and all(c[3] == zero for c in cp)
+            ck.ob("A-push-summary", "cglue/CVec::push", ok, "push must reserve(1), write the value at data+len (data read after reserve) and set len = len+1: %s" % [(r[2], r[3]) for r in rs],
+                  sample={"op": "push", "write_at": "data' + len0", "len'": "len0 + 1"})
+            done.add("push")
+    # ---- pop
+    fn = fns.get(V + "CVec::<T>::pop")
+    if fn:
+        rs = sem_op(fns, fn, [])
+        if rs and all(r[0] == "ret" for r in rs):
+            seen_none = seen_some = False
+            ok = True
+            for kind, guards, ev_, flen, ret, o in rs:
+                r = sem.strip(ret)
+                if ("eq0", l0) in guards:
+                    seen_none = True
+                    ok = ok and not ev_ and flen == l0 and sem.variant_of(r) == "None"
+                elif ("ne0", l0) in guards or ("ge0", l0 - one) in guards:
+                    seen_some = True
+                    rd = [e for e in ev_ if e[0] == "read"]
+                    ok = ok and len(ev_) == 1 and len(rd) == 1 and rd[0][1] == d0 + l0 - one and flen == l0 - one and sem.variant_of(r) == "Some" \
+                        and sem.strip(r[4][0])[0] == "opq" and sem.strip(r[4][0])[1] == rd[0][2]
+                else:
+                    ok = False
+            ck.ob("A-pop-summary", "cglue/CVec::pop", ok and seen_none and seen_some,
+                  "pop must return None untouched iff len == 0, else set len = len-1 and return the element read at data+len-1: %s" % [(r[1], r[2], r[3]) for r in rs],
+                  sample={"op": "pop", "read_at": "data0 + len0 - 1", "len'": "len0 - 1"})
+            done.add("pop")
+    # ---- insert
+    fn = fns.get(V + "CVec::<T>::insert")
+    if fn:
+        rs = sem_op(fns, fn, ["index", "element"])
+        rets = [r for r in rs if r[0] == "ret"]
+        if rs and rets and all(r[0] in ("ret", "panic") for r in rs):
+            ok = True
+            for kind, guards, ev_, flen, ret, o in rs:
+                if kind == "panic":
+                    # only the failed bound check may panic, before anything was touched
+                    ok = ok and ("ge0", i - l0 - one) in guards and not ev_
+                    continue
+                rv = [e for e in ev_ if e[0] == "reserve"]
+                w = [e for e in ev_ if e[0] == "write"]
+                cp = copies(ev_)
+                shape = ("ge0", l0 - i) in guards and len(rv) == 1 and rv[0][1] == one and ev_.index(rv[0]) == 0 and len(w) == 1 and w[0][1] == d1 + i \
+                    and w[0][2] == ("sym", "element") and flen == l0 + one and not others(ev_, ("reserve", "write", "copy")) and len(cp) <= 1
+                if shape and cp:
+                    shape = cp[0][1] == d1 + i and cp[0][2] == d1 + i + one and cp[0][3] == l0 - i and cp[0][4] == "copy" and ev_.index(cp[0]) < ev_.index(w[0])
+                elif shape:
+                    shape = ("eq0", affine._norm_sign(l0 - i)) in guards     # nothing to shift only when index == len
+                ok = ok and shape
+            ck.ob("G-insert-guard-first", "cglue/CVec::insert", any(r[0] == "panic" for r in rs), "insert has no failing bound check")
+            ck.ob("A-insert-summary", "cglue/CVec::insert", ok,
+                  "insert must check index <= len, reserve(1), shift [index, len) up by one with an overlapping copy (src=data+i, dst=data+i+1, count=len-i), write at data+i, len = len+1 "
+                  "(all pointers from the data read after reserve): %s" % [(r[0], r[1], r[2], r[3]) for r in rs], sample={"op": "insert", "copy": "data'+i -> data'+i+1 x (len0-i)", "len'": "len0 + 1"})
+            done.add("insert")
+    # ---- remove
+    fn = fns.get(V + "CVec::<T>::remove")
+    if fn:
+        rs = sem_op(fns, fn, ["index"])
+        rets = [r for r in rs if r[0] == "ret"]
+        if rs and rets and all(r[0] in ("ret", "panic") for r in rs):
+            ok = True
+            for kind, guards, ev_, flen, ret, o in rs:
+                if kind == "panic":
+                    ok = ok and ("ge0", i - l0) in guards and not ev_
+                    continue
+                rd = [e for e in ev_ if e[0] == "read"]
+                cp = copies(ev_)
+                shape = ("ge0", l0 - i - one) in guards and len(rd) == 1 and rd[0][1] == d0 + i and flen == l0 - one and not others(ev_, ("read", "copy")) and len(cp) <= 1
+                r = sem.strip(ret)
+                shape = shape and r[0] == "opq" and r[1] == rd[0][2] if shape else False
+                if shape and cp:
+                    shape = cp[0][1] == d0 + i + one and cp[0][2] == d0 + i and cp[0][3] == l0 - i - one and cp[0][4] == "copy" and ev_.index(rd[0]) < ev_.index(cp[0])
+                elif shape:
+                    shape = ("eq0", affine._norm_sign(l0 - i - one)) in guards
+                ok = ok and shape
+            ck.ob("A-remove-summary", "cglue/CVec::remove", ok,
+                  "remove must check index < len, read data+i, shift (index, len) down by one (src=data+i+1, dst=data+i, count=len-i-1), len = len-1 and return the element read: %s"
+                  % [(r[0], r[1], r[2], r[3]) for r in rs], sample={"op": "remove", "copy": "data+i+1 -> data+i x (len0-i-1)", "len'": "len0 - 1"})
+            done.add("remove")
+    return done
+
+
 def run(tier):
     ck = report.Check("C11", tier, level="other")
     f = facts.cfg_cglue()
@@ -104,9 +298,10 @@ def run(tier):
         ck.require(fn is not None, "CVec::" + name)
         return fn
 
+    sem_decided = sem_element_ops(ck, fns)
     # ---- push ------------------------------------------------------------------------------------------
     fn = need("push")
-    if fn:
+    if fn and "push" not in sem_decided:
         body, runs = run_op(fn, {2: "value"})
         ok = len(runs) == 1
         if ok:
@@ -118,7 +313,7 @@ def run(tier):
               sample={"op": "push", "write_at": "data' + len0", "len'": "len0 + 1"})
     # ---- pop -------------------------------------------------------------------------------------------------
     fn = need("pop")
-    if fn:
+    if fn and "pop" not in sem_decided:
         body, runs = run_op(fn, {})
         ok = len(runs) == 2
         seen_none = seen_some = False
@@ -132,7 +327,7 @@ def run(tier):
               sample={"op": "pop", "read_at": "data0 + len0 - 1", "len'": "len0 - 1"})
     # ---- insert ----------------------------------------------------------------------------------------------------
     fn = need("insert")
-    if fn:
+    if fn and "insert" not in sem_decided:
         body, runs = run_op(fn, {2: "index", 3: "element"})
         ok = len(runs) == 1
         detail = ""
@@ -153,7 +348,7 @@ def run(tier):
               "(all pointers from the data read after reserve): %s" % detail, sample={"op": "insert", "copy": "data'+i -> data'+i+1 x (len0-i)", "len'": "len0 + 1"})
     # ---- remove ------------------------------------------------------------------------------------------------------
     fn = need("remove")
-    if fn:
+    if fn and "remove" not in sem_decided:
         body, runs = run_op(fn, {2: "index"})
         ok = len(runs) == 1
         detail = ""
@@ -325,7 +520,8 @@ def run(tier):
             continue
         body = mir.Body(fn)
         el = [s for s in ledger.prim_sites(body) if s.kind in ("ptr_read", "ptr_write", "ptr_copy")]
-        ck.ob("E-no-other-element-access", "cglue/" + p, not el, "%s reads/writes elements outside push/pop/insert/remove: %s" % (p, el))
+        helper_ok = bool(el) and (fn.get("unsafe") or not fn.get("vis", "Public").startswith("Public")) and p.startswith(V + "CVec::<T>::") and all(q.startswith(V + "CVec::<T>::") and q.split("::")[-1] in ("push", "pop", "insert", "remove") for q, g in fns.items() for _, t in mir.Body(g).calls() if (mir.callee_res(t) or "") == p) and any((mir.callee_res(t) or "") == p for g in fns.values() for _, t in mir.Body(g).calls())
+        ck.ob("E-no-other-element-access", "cglue/" + p, not el or helper_ok, "%s reads/writes elements outside push/pop/insert/remove: %s" % (p, el))
     return ck.finish(
         "symbolic execution of the success path of push/pop/insert/remove in an affine domain over (data, len, index) with `data` re-versioned by "
         "reserve, compared with Vec's specification (write/read/copy addresses, counts, new length, index guards); growth and release shown to go "
